@@ -537,7 +537,7 @@ def snapshot_diff(tree, snap):
   return None
 
 
-def round_conditioning(kind, params, opt_state, clients, hp, copt_name, sopt_name):
+def round_conditioning(kind, params, opt_state, clients, hp, copt_name, sopt_name, rng_variant=False):
   """(ill, wide) for one FedAvg-style round from `params`: True when float32-vs-float64 / summation-order rounding can
   legitimately change the result by O(lr) (adaptive optimizer meeting a gradient or mean delta of rounding size).
   clients: [(cid, ClientDataset, key)] with fixed-seed hparams."""
@@ -546,7 +546,7 @@ def round_conditioning(kind, params, opt_state, clients, hp, copt_name, sopt_nam
   ill = False
   for cid, ds, key in clients:
     batches = list(ds.shuffle_repeat_batch(hparams_obj(hp)))
-    tc, _ = ref_local_train(kind, False, params, batches, key, copt)
+    tc, _ = ref_local_train(kind, rng_variant, params, batches, key, copt)
     ill = ill or (ILL['flag'] and copt_name in ('adam', 'adagrad', 'yogi', 'adamw', 'rmsprop', 'adafactor_wd'))
     trained.append(tc)
     sizes.append(len(ds))
